@@ -34,6 +34,8 @@ def plan(tier, seed):
     per = n // NSHARDS
     specs = [{"kind": "random", "start": p * per, "count": per} for p in range(NSHARDS)]
     specs += [{"kind": "lattice", "part": p, "parts": 8, "maxm": 9 if tier == "quick" else 13} for p in range(8)]
+    big = 1 if tier == "quick" else 30
+    specs += [{"kind": "large", "start": p * big, "count": big} for p in range(4 if tier == "quick" else 16)]
     return specs
 
 
@@ -64,7 +66,9 @@ def judge(ctx, cid, case, res):
 
 def run_random_case(ctx, kind, idx):
     rng = ctx.rng(kind, idx)
-    case = M.gen_case(rng, weaver=bool(rng.integers(0, 7) == 0))
+    case = M.gen_case(rng, weaver=bool(rng.integers(0, 7) == 0), large=kind == "large")
+    if kind == "large":
+        ctx.count("large:len(x)*len(x_ref)>2**20" if len(case["x"]) * len(case["x_ref"]) > 2 ** 20 else "large:below_2**20")
     cid = ctx.case_id(kind, idx)
     try:
         with fp_watch(ctx):
@@ -127,7 +131,7 @@ def run(ctx, spec):
         run_lattice(ctx, spec)
     else:
         for idx in range(spec["start"], spec["start"] + spec["count"]):
-            run_random_case(ctx, "random", idx)
+            run_random_case(ctx, spec["kind"], idx)
 
 
 def replay(ctx, case):
